@@ -8,7 +8,7 @@ V=/verif; D=$V/seeded/$NAME
 [ -z "$(git -C /repo status --short)" ] || { echo "/repo is not clean"; exit 2; }
 git -C /repo apply $D/patch.diff || exit 3
 (cd $V && ./check $P > /tmp/recheck_$NAME.log 2>&1); E=$?
-git -C /repo checkout -- .
+git -C /repo checkout -- . && git -C /repo clean -fdq src
 L=$(grep -m1 "^VIOLATION" /tmp/recheck_$NAME.log)
 echo "check $P against $NAME: exit=$E $L"
 sed -n 2,2p /tmp/recheck_$NAME.log | cut -c1-300
